@@ -444,6 +444,7 @@ type pkgInstr struct {
 	yieldNames []string
 	mapNames   []string
 	curFunc    string
+	aliases    map[types.Object]bool // locals of the current function that alias a mutable global
 }
 
 func (pi *pkgInstr) pos(n ast.Node) string {
@@ -605,6 +606,7 @@ func (pi *pkgInstr) instrument(f *ast.File) bool {
 				continue
 			}
 			pi.curFunc = pkgShort + "." + funcName(fd)
+			pi.aliases = pi.findAliases(fd.Body)
 			if pi.yieldBlock(fd.Body) {
 				changed = true
 			}
@@ -673,10 +675,79 @@ func (pi *pkgInstr) touches(n ast.Node) bool {
 			if v := pkgVar(pi.p.TypesInfo, y); v != nil && pi.mutable[v] {
 				found = true
 			}
+			if o := pi.p.TypesInfo.Uses[y]; o != nil && pi.aliases[o] {
+				found = true
+			}
 		}
 		return true
 	})
 	return found
+}
+
+// findAliases collects the local variables of a function body that are assigned the address of a
+// mutable package-level variable (x := &G, x := &G.f) or a reference-typed view of it (x := G where G
+// is a pointer, map, slice or channel), transitively (y := x). Uses of such locals are yield points too.
+func (pi *pkgInstr) findAliases(body *ast.BlockStmt) map[types.Object]bool {
+	info := pi.p.TypesInfo
+	al := map[types.Object]bool{}
+	refType := func(e ast.Expr) bool {
+		t := info.TypeOf(e)
+		if t == nil {
+			return false
+		}
+		switch t.Underlying().(type) {
+		case *types.Pointer, *types.Map, *types.Slice, *types.Chan:
+			return true
+		}
+		return false
+	}
+	rooted := func(e ast.Expr) bool {
+		addr := false
+		if u, ok := e.(*ast.UnaryExpr); ok && u.Op == token.AND {
+			addr = true
+			e = u.X
+		}
+		id := rootIdent(info, e)
+		if id == nil {
+			return false
+		}
+		isG := false
+		if v := pkgVar(info, id); v != nil && pi.mutable[v] {
+			isG = true
+		}
+		if o := info.Uses[id]; o != nil && al[o] {
+			isG = true
+		}
+		return isG && (addr || refType(e))
+	}
+	for changed := true; changed; {
+		changed = false
+		ast.Inspect(body, func(n ast.Node) bool {
+			as, ok := n.(*ast.AssignStmt)
+			if !ok || len(as.Lhs) != len(as.Rhs) {
+				return true
+			}
+			for i, r := range as.Rhs {
+				if !rooted(r) {
+					continue
+				}
+				if id, ok := as.Lhs[i].(*ast.Ident); ok && id.Name != "_" {
+					o := info.Defs[id]
+					if o == nil {
+						o = info.Uses[id]
+					}
+					if o != nil && !al[o] {
+						if v, isVar := o.(*types.Var); isVar && v.Pkg() != nil && v.Parent() != v.Pkg().Scope() {
+							al[o] = true
+							changed = true
+						}
+					}
+				}
+			}
+			return true
+		})
+	}
+	return al
 }
 
 func (pi *pkgInstr) yieldStmt(n ast.Node) ast.Stmt {
